@@ -168,6 +168,7 @@ def run(ctx):
     _conditions(ctx)
     _br_table(ctx)
     _sign_wrap(ctx)
+    _fresh_accesses(ctx)
 
 
 def _conditions(ctx):
@@ -375,3 +376,118 @@ def _sign_wrap(ctx):
     uses = [c for c in ast.walk(rt.tree) if isinstance(c, ast.Call) and norm(c.func) == "make_int"]
     widths = sorted({norm(c.args[1]) for c in uses if len(c.args) == 2})
     ctx.ob("C22.R8", "ppci/wasm/execution/runtime.py", "the unsigned truncations hand their result to make_int with the width of the result type (%d uses)" % len(uses), len(uses) >= 8 and widths == ["32", "64"], construct="runtime-uses", detail=str(widths))
+
+
+def _reaching(body, env, events):
+    """reaching definitions over a statement list with if/else: env maps a local name to the set of expression nodes
+    it may hold; events collects (call node, copy of env) for every self.push_value / self.emit call in program order.
+    Returns the env after the list, or None when every path left the function."""
+    for st in body:
+        if env is None:
+            return None
+        if isinstance(st, ast.If):
+            a = _reaching(st.body, {k: set(v) for k, v in env.items()}, events)
+            b = _reaching(st.orelse, {k: set(v) for k, v in env.items()}, events)
+            if a is None or b is None:
+                env = a if b is None else b
+            else:
+                env = {k: a.get(k, set()) | b.get(k, set()) for k in set(a) | set(b)}
+            continue
+        if isinstance(st, (ast.Return, ast.Raise)):
+            return None
+        for c in ast.walk(st):
+            if isinstance(c, ast.Call) and norm(c.func) in ("self.push_value", "self.emit"):
+                events.append((c, {k: set(v) for k, v in env.items()}))
+        if isinstance(st, ast.Assign) and len(st.targets) == 1:
+            t = st.targets[0]
+            if isinstance(t, ast.Name):
+                env[t.id] = {st.value}
+            elif isinstance(t, ast.Tuple):
+                for e in t.elts:
+                    if isinstance(e, ast.Name):
+                        env[e.id] = {st.value}
+        elif isinstance(st, (ast.For, ast.While, ast.With, ast.Try)):
+            for n in ast.walk(st):
+                if isinstance(n, ast.Name) and isinstance(n.ctx, ast.Store):
+                    env[n.id] = {st}
+    return env
+
+
+def _is_emit_of(e, kinds):
+    return isinstance(e, ast.Call) and norm(e.func) == "self.emit" and len(e.args) == 1 and isinstance(e.args[0], ast.Call) and norm(e.args[0].func) in kinds
+
+
+def _fresh_accesses(ctx):
+    """C22.R9.  A wasm local, global, table slot or memory cell can be written between two reads by anything that runs
+    in between - a call, call_indirect or an imported function included.  The translation is therefore only right when
+    each read instruction emits its own ir.Load and pushes that load's result, and each write instruction emits an
+    ir.Store, on every path through its generator."""
+    ctx.rule("C22.R9", "every read instruction reads and every write instruction writes: the value pushed by local.get / global.get / table.get / *.load is, on every path, the result of an ir.Load emitted by that very generator call (nothing remembered from an earlier instruction), and local.set / global.set / table.set / *.store emit exactly one ir.Store on every path; the memory base is loaded per access", floor=12)
+    def resolve(e, env, depth=0):
+        """set of 'origins' of a pushed expression: 'load' (fresh emit(ir.Load)), 'other:<text>'"""
+        if _is_emit_of(e, ("ir.Load",)):
+            return {"load"}
+        if _is_emit_of(e, ("ir.Cast",)) and e.args[0].args:
+            return resolve(e.args[0].args[0], env, depth + 1)
+        if isinstance(e, ast.Name) and e.id in env and depth < 6:
+            out = set()
+            for d in env[e.id]:
+                out |= resolve(d, env_at.get(id(d), {}), depth + 1) if isinstance(d, ast.AST) and id(d) in env_at else {"other:" + norm(d)[:50]}
+            return out
+        return {"other:" + norm(e)[:50]}
+    for q in ("gen_local_get", "gen_global_get", "gen_table_get", "gen_load"):
+        fn = ctx.fn(W, "WasmToIrCompiler." + q)
+        events = []
+        env_at = {}
+        # record, for every assigned value expression, the env that was current when it was evaluated
+        def rec(body, env):
+            for st in body:
+                if isinstance(st, ast.If):
+                    rec(st.body, dict(env)); rec(st.orelse, dict(env))
+                    for n in ast.walk(st):
+                        if isinstance(n, ast.Assign) and isinstance(n.targets[0], ast.Name):
+                            env[n.targets[0].id] = env.get(n.targets[0].id, set()) | {n.value}
+                    continue
+                if isinstance(st, ast.Assign) and len(st.targets) == 1 and isinstance(st.targets[0], ast.Name):
+                    env_at[id(st.value)] = {k: set(v) for k, v in env.items()}
+                    env[st.targets[0].id] = {st.value}
+        rec(fn.body, {})
+        end = _reaching(fn.body, {}, events)
+        pushes = [(c, env) for c, env in events if norm(c.func) == "self.push_value"]
+        site = "%s:WasmToIrCompiler.%s" % (W, q)
+        ctx.ob("C22.R9", site, "the generator pushes one value", len(pushes) >= 1, construct="pushes:" + q)
+        for c, env in pushes:
+            org = resolve(c.args[0], env)
+            ctx.ob("C22.R9", site, "the pushed value is on every path the result of an ir.Load this call emitted", org == {"load"}, construct="fresh-load:" + q, node=c, detail="origins: %s" % sorted(org))
+        stores_attr = [n for n in ast.walk(fn) if isinstance(n, (ast.Assign, ast.AugAssign)) and any(isinstance(t, (ast.Attribute, ast.Subscript)) and norm(t).startswith("self.") for t in (n.targets if isinstance(n, ast.Assign) else [n.target]))]
+        ctx.ob("C22.R9", site, "the generator keeps nothing on the compiler object for a later instruction", not stores_attr, construct="no-memo:" + q, node=stores_attr[0] if stores_attr else fn, detail="; ".join(norm(n)[:60] for n in stores_attr))
+    for q in ("gen_local_set", "gen_global_set", "gen_table_set", "gen_store"):
+        fn = ctx.fn(W, "WasmToIrCompiler." + q)
+        site = "%s:WasmToIrCompiler.%s" % (W, q)
+        def count(body):
+            """set of possible numbers of emitted stores over the paths through body"""
+            tot = {0}
+            for st in body:
+                if isinstance(st, ast.If):
+                    a, b = count(st.body), count(st.orelse)
+                    tot = {x + y for x in tot for y in a | b}
+                    continue
+                n = sum(1 for c in ast.walk(st) if _is_emit_of(c, ("ir.Store",)))
+                tot = {x + n for x in tot}
+            return tot
+        cnt = count(fn.body)
+        ctx.ob("C22.R9", site, "exactly one ir.Store is emitted on every path", cnt == {1}, construct="stores:" + q, detail="stores per path: %s" % sorted(cnt))
+        stores_attr = [n for n in ast.walk(fn) if isinstance(n, (ast.Assign, ast.AugAssign)) and any(isinstance(t, (ast.Attribute, ast.Subscript)) and norm(t).startswith("self.") for t in (n.targets if isinstance(n, ast.Assign) else [n.target]))]
+        ctx.ob("C22.R9", site, "the generator keeps nothing on the compiler object for a later instruction", not stores_attr, construct="no-memo:" + q, node=stores_attr[0] if stores_attr else fn, detail="; ".join(norm(n)[:60] for n in stores_attr))
+    ma = ctx.fn(W, "WasmToIrCompiler.get_memory_address")
+    lo = [c for c in ast.walk(ma) if _is_emit_of(c, ("ir.Load",)) and norm(c.args[0].args[0]) == "self.memory_base_address"]
+    ctx.ob("C22.R9", W + ":WasmToIrCompiler.get_memory_address", "the memory base is loaded for every access (memory.grow in a callee may move the memory)", len(lo) == 1 and not any(isinstance(a, (ast.If, ast.For, ast.While)) for a in _anc22(lo[0], ma)), construct="fresh-base")
+
+
+def _anc22(n, stop):
+    out = []
+    n = getattr(n, "_parent", None)
+    while n is not None and n is not stop:
+        out.append(n)
+        n = getattr(n, "_parent", None)
+    return out
